@@ -37,7 +37,10 @@ def run(ctx, coq_ok):
     fixed_t = ["select a,b from {{ tbl }} where  {% if flag %}a=1{% else %}b=2{% endif %}\n",
                "SELECT {% for c in items %}{{c}}  ,{% endfor %} 1 as  x from t\n",
                "select\n{%- for i in range(2) %}\n  col_{{i}}  AS C{{i}},\n{%- endfor %}\n 1 FROM T {#comment#}\n",
-               "{%if flag%}select  1{%else%}select  2{%endif%}\n", "SELECT {{col}},{{   n   }} from t\n"]
+               "{%if flag%}select  1{%else%}select  2{%endif%}\n", "SELECT {{col}},{{   n   }} from t\n",
+               # indentation swallowed by a whitespace-control tag at the start of the file; raw blocks; tags followed by trailing whitespace
+               "   {%- set x = 1 %}SELECT 1\n", " {{- 'SELECT' }} 1\n", "    {%- if flag %}SELECT 1{% endif %}\n",
+               "SELECT 1 {%raw -%}   \n, 2 {% endraw %}\nFROM t \n", "SELECT a {% if flag %}  \n, b{% endif %}   \nFROM t  \n", "SELECT a {# c #}   \nFROM t\n"]
     for s in fixed_t:
         for c in (0, 1):
             for r in rulesets:
@@ -75,6 +78,12 @@ def run(ctx, coq_ok):
                 if not (b <= x or y <= a) and not (a == b and (a == x or a == y)):
                     ctx.violation("patch-overlaps-template-code", "a %s patch (%d,%d)->%r overlaps the %s slice (%d,%d) %r [%s]" % (cat, a, b, raw[:20], kind, x, y, src[x:y][:30], tpl),
                                   {"input": inp, "patch": [a, b, raw, cat]}, attrs={"category": cat, "templater": tpl})
+        # (c) the number of template markers cannot change (a duplicated or deleted tag shows here even when it re-renders alike)
+        for mk in ("{%", "{{", "{#", "%}", "}}", "#}"):
+            if tpl == "jinja" and res["src"].count(mk) != res["fixed"].count(mk):
+                ctx.violation("template-marker-count-changed", "fix changed the number of %r markers from %d to %d [%s, rules %s]" % (mk, res["src"].count(mk), res["fixed"].count(mk), tpl, rules),
+                              {"input": inp, "fixed": res["fixed"]}, attrs={"templater": tpl, "jj01": jj01, "raw_block": "raw" in res["src"], "delta": res["fixed"].count(mk) - res["src"].count(mk), "source_category_patch": src_patch, "lt02": lt02})
+                break
         # (b) end to end
         p0, p1 = res["parts0"], res["parts1"]
         if p1 is None:
@@ -86,6 +95,6 @@ def run(ctx, coq_ok):
         if p0 != p1:
             i = next((k for k in range(min(len(p0), len(p1))) if p0[k] != p1[k]), min(len(p0), len(p1)))
             ctx.violation("template-code-changed", "template code changed by fix: %r -> %r [%s, rules %s]" % (p0[i:i + 1], p1[i:i + 1], tpl, rules),
-                          {"input": inp, "fixed": res["fixed"]}, attrs={"templater": tpl, "jj01": jj01, "source_category_patch": src_patch, "lt02": lt02})
+                          {"input": inp, "fixed": res["fixed"]}, attrs={"templater": tpl, "jj01": jj01, "source_category_patch": src_patch, "lt02": lt02, "raw_block": "raw" in src})
     ctx.coverage_extra["files_changed_by_fix"] = nchanged
     ctx.coverage_extra["fix_runs"] = len(jobs)
